@@ -119,6 +119,45 @@ func csv2Schema(c *c06Case, delim string) string {
  "transform_declarations": {"FINAL_OUTPUT": {"object": {"x": {"const": "1"}}}}}`
 }
 
+// csv2SchemaNested: the same record declaration as the child of a column-bearing parent record W (one W line is put in
+// front of the input), its columns written without "index" wherever the index is the documented default (the previous
+// column's index + 1, 1 for the first column of a record)
+func csv2SchemaNested(c *c06Case, delim string) string {
+	var cols []string
+	prev := 0
+	for k, col := range c.Cols {
+		s := fmt.Sprintf(`{"name": "c%d"`, k+1)
+		if col.Idx != prev+1 {
+			s += fmt.Sprintf(`, "index": %d`, col.Idx)
+		}
+		prev = col.Idx
+		if col.Li != 0 {
+			s += fmt.Sprintf(`, "line_index": %d`, col.Li)
+		}
+		if col.Lp != "" {
+			s += `, "line_pattern": "^` + col.Lp + `"`
+		}
+		cols = append(cols, s+"}")
+	}
+	rec := `"name": "R", `
+	if c.Decl.Kind == "rows" {
+		rec += fmt.Sprintf(`"rows": %d`, c.Decl.Rows)
+	} else {
+		rec += `"header": "^H"`
+		if c.Decl.Footer {
+			rec += `, "footer": "^F"`
+		}
+	}
+	rdq := ""
+	if c06RDQ {
+		rdq = `"replace_double_quotes": true, `
+	}
+	return `{"parser_settings": {"version": "omni.2.1", "file_format_type": "csv2"},
+ "file_declaration": {` + rdq + `"delimiter": ` + jstr(delim) + `, "records": [{"name": "W", "header": "^W", "columns": [{"name": "w1", "index": 2}, {"name": "w2"}, {"name": "w4", "index": 5}],
+   "child_records": [{` + rec + `, "is_target": true, "columns": [` + strings.Join(cols, ", ") + `]}]}]},
+ "transform_declarations": {"FINAL_OUTPUT": {"object": {"x": {"const": "1"}}}}}`
+}
+
 const flW = 6 // field width (runes) of the fixed-length renderings
 
 func padRunes(s string, w int) string {
@@ -376,6 +415,23 @@ func c06Replay(args []string) int {
 			sum.eval(c.Nt || pl.name != "plain", M{"f": "csv2", "i": input[:min(len(input), 200)], "s": schema})
 			if pv != "" || end != c.End || !same(got, exp) {
 				report("csv2-"+pl.name, "csv2", input, schema, exp, c.End, got, end, detail+pv)
+			}
+		}
+		// --- csv2, the declaration nested below a parent record, default column indexes left out
+		if !c.Decl.Pre {
+			input := "W" + delim + "w1" + delim + "w2" + delim + "w3" + delim + "w4\n" + renderCSV(c.Lines, pl, delim, crlf && pl.name != "rich", lastTerm)
+			schema := csv2SchemaNested(&c, delim)
+			sch, e := getSchema(schema)
+			if e != nil {
+				return fmt.Errorf("csv2 schema (nested) rejected: %v\n%s", e, schema)
+			}
+			var got []obsRec
+			var end, detail string
+			pv, _ := guarded(0, func() { got, end, detail = runFlat(sch, input, len(c.Lines)+4) })
+			exp := expect(plSeen, false)
+			sum.eval(c.Nt || pl.name != "plain", M{"f": "csv2-nested", "i": input[:min(len(input), 200)], "s": schema})
+			if pv != "" || end != c.End || !same(got, exp) {
+				report("csv2-nested-"+pl.name, "csv2 (nested below a parent record, default indexes)", input, schema, exp, c.End, got, end, detail+pv)
 			}
 		}
 		// --- fixedlength2 (fields are fixed-width cells of multi-byte runes)
